@@ -22,6 +22,7 @@ K("awkward_ListArray_getitem_next_at",
 
 K("awkward_ListArray_min_range",
   requires=["lenstarts >= 1"],
+  extents={"fromstarts": "lenstarts", "fromstops": "lenstarts"},
   per_spec={"U32": {"requires": [LE("fromstarts", "fromstops", "lenstarts")]}},
   notes="reads element 0: lenstarts >= 1 is a precondition (checked at the call site by Engine G)",
   serves=["C09", "C12", "C13"])
@@ -58,8 +59,8 @@ K("awkward_ListArray_rpad_axis1",
   serves=["C09", "C12", "C13"])
 
 K("awkward_ListOffsetArray_reduce_nonlocal_outstartsstops_64",
-  requires=["outlength >= 1", "lendistincts >= outlength",
+  requires=["lendistincts >= outlength", "implies(outlength == 0, lendistincts == 0)",
             "forall(q, 0, lendistincts, gaps[q] >= 1)", "forall(q, 0, lendistincts, distincts[q] >= -1)"],
   loops={"L0": ["0 <= i", "0 <= j", "0 <= k", "maxdistinct >= -1", "implies(maxdistinct >= 0, k >= 1)"]},
-  notes="divides by outlength and by lendistincts/outlength: both must be >= 1 (call-site obligation, Engine G)",
+  notes="divides by lendistincts/outlength inside the loop: needs lendistincts >= outlength (so the quotient is >= 1 whenever the loop runs)",
   serves=["C03", "C12", "C13"])
